@@ -125,3 +125,17 @@ Theorem C11_nurimisaki_exact : forall h w grid st ans,
    <-> rules_nurimisaki (List.cons (List.cons (Z.of_nat h) (List.cons (Z.of_nat w) nil)) (List.cons grid nil)) ans = true).
 Proof. exact nurimisaki_exact. Qed.
 Print Assumptions C11_nurimisaki_exact.
+
+(* Tier 1, heyawake, every board shape, every room layout and all room clues; the connectivity of the white
+   cells through property C04's theorems, the adjacency rule through the two shifted-slice conjunctions the grid
+   form of active_vertices_not_adjacent posts, the "no white line across two room borders" rule proved
+   equivalent to the posted per-border windows *)
+From Cspuz Require Import Puzzle.Rules_heyawake Puzzle.Heyawake Puzzle.HeyawakeProofs.
+Theorem C11_heyawake_exact : forall h w room clue st ans,
+  solve_heyawake_model (List.cons (List.cons (Z.of_nat h) (List.cons (Z.of_nat w) nil))
+                          (List.cons room (List.cons clue nil))) = Ok st ->
+  ((exists en, model_of gsem_avc en st /\ reads st en (seq 0 (h * w)) = ans)
+   <-> rules_heyawake (List.cons (List.cons (Z.of_nat h) (List.cons (Z.of_nat w) nil))
+                          (List.cons room (List.cons clue nil))) ans = true).
+Proof. exact heyawake_exact. Qed.
+Print Assumptions C11_heyawake_exact.
